@@ -215,18 +215,28 @@ impl Image {
         out
     }
 
-    /// Write the image below `dst` (which must not exist or be empty).
+    /// Write the image below `dst` (which must not exist or be empty).  Names of one inode are
+    /// materialised as hard links of one file (recovery code may compare inodes).
     pub fn materialise(&self, dst: &Path, dropped: &BTreeSet<usize>) -> std::io::Result<()> {
         std::fs::create_dir_all(dst)?;
         for d in self.dirs.iter() {
             std::fs::create_dir_all(dst.join(d))?;
         }
-        for (p, data) in self.contents(dropped) {
+        let contents = self.contents(dropped);
+        let mut first_name: HashMap<u64, PathBuf> = HashMap::new();
+        for (p, data) in contents {
             let full = dst.join(&p);
             if let Some(parent) = full.parent() {
                 std::fs::create_dir_all(parent)?;
             }
-            std::fs::write(full, data)?;
+            let ino = self.names[&p];
+            match first_name.get(&ino) {
+                Some(first) => std::fs::hard_link(first, &full)?,
+                None => {
+                    std::fs::write(&full, data)?;
+                    first_name.insert(ino, full);
+                }
+            }
         }
         Ok(())
     }
@@ -234,6 +244,12 @@ impl Image {
     /// Stable hash of (dirs, names, contents): identical images recover identically.
     pub fn hash(&self, dropped: &BTreeSet<usize>) -> u64 {
         let c = self.contents(dropped);
-        vcore::stable_hash(&(&self.dirs, &c))
+        // link structure: which names share an inode
+        let mut groups: BTreeMap<u64, Vec<&PathBuf>> = BTreeMap::new();
+        for (p, ino) in self.names.iter() {
+            groups.entry(*ino).or_default().push(p);
+        }
+        let links: Vec<Vec<&PathBuf>> = groups.into_values().filter(|g| g.len() > 1).collect();
+        vcore::stable_hash(&(&self.dirs, &c, &links))
     }
 }
